@@ -81,7 +81,10 @@ def _m(p, n, env):
         if fld in _IGNORED:
             continue
         pv, nv = getattr(p, fld, None), getattr(n, fld, None)
-        if isinstance(pv, list):
+        if isinstance(pv, list) and pv and isinstance(pv[0], ast.stmt):
+            if not isinstance(nv, list) or not _m_block(pv, nv, env):
+                return False
+        elif isinstance(pv, list):
             if not isinstance(nv, list) or len(pv) != len(nv):
                 return False
             for a, b in zip(pv, nv):
@@ -103,6 +106,87 @@ def _m(p, n, env):
                     env[pv] = nv
             elif pv != nv:
                 return False
+    return True
+
+
+_SIMPLE = (ast.Assign, ast.AugAssign, ast.AnnAssign, ast.Expr, ast.Assert,
+           ast.Pass, ast.Import, ast.ImportFrom)
+
+
+def _ids(node):
+    out = set()
+    for n in ast.walk(node):
+        if isinstance(n, ast.Name):
+            out.add(n.id)
+        elif isinstance(n, ast.arg):
+            out.add(n.arg)
+    return out
+
+
+def inert(stmt, matched_ids):
+    """A statement that may stand between (or around) the statements a rule
+    speaks about without mattering to them: straight-line, and neither storing
+    to, deleting, nor passing to a call anything the rule's statements name."""
+    if not isinstance(stmt, _SIMPLE):
+        return False
+    touched = set()
+    for n in ast.walk(stmt):
+        if isinstance(n, (ast.Yield, ast.YieldFrom, ast.Await, ast.NamedExpr,
+                          ast.Lambda, ast.ListComp, ast.SetComp, ast.DictComp,
+                          ast.GeneratorExp)):
+            return False
+        if isinstance(n, ast.Call):
+            touched |= _ids(n)
+        elif isinstance(n, ast.Name) and not isinstance(n.ctx, ast.Load):
+            touched.add(n.id)
+        elif isinstance(n, (ast.Attribute, ast.Subscript)) and not isinstance(n.ctx, ast.Load):
+            touched |= _ids(n)
+        elif isinstance(n, ast.alias):
+            touched.add((n.asname or n.name).split(".")[0])
+    return not (touched & matched_ids)
+
+
+def strip_inert(block, keep):
+    """The statements of `block` that are not inert with respect to the
+    identifiers of the statements in `keep` (a subset of block)."""
+    ids = set()
+    for k in keep:
+        ids |= _ids(k)
+    return [s for s in block if any(s is k for k in keep) or not inert(s, ids)]
+
+
+def _m_block(pv, nv, env):
+    """Pattern statements match, in order, a subsequence of the block; every
+    statement skipped is inert with respect to the statements matched."""
+    if len(pv) > len(nv):
+        return False
+    if len(pv) == len(nv):
+        e2 = dict(env)
+        if all(_m(a, b, e2) for a, b in zip(pv, nv)):
+            env.update(e2)
+            return True
+        return False
+
+    def rec(i, j, e, used):
+        if i == len(pv):
+            ids = set()
+            for k in used:
+                ids |= _ids(nv[k])
+            if all(inert(nv[k], ids) for k in range(len(nv)) if k not in used):
+                return e
+            return None
+        for k in range(j, len(nv) - (len(pv) - i) + 1):
+            e2 = dict(e)
+            if _m(pv[i], nv[k], e2):
+                r = rec(i + 1, k + 1, e2, used + [k])
+                if r is not None:
+                    return r
+        return None
+
+    r = rec(0, 0, dict(env), [])
+    if r is None:
+        return False
+    env.update(r)
     return True
 
 
